@@ -16,7 +16,7 @@ import six
 from . import Grid
 from .datatypes import Quantity, Coordinate, Ref, Bin, Uri, \
     MARKER, NA, REMOVE, STR_SUB, XStr
-from .version import LATEST_VER, VER_3_0
+from .version import LATEST_VER, VER_3_0, pre_3_0
 from .zoneinfo import timezone_name
 
 # Characters that need escaping: the delimiters, everything from U+0080 up,
@@ -99,7 +99,7 @@ def dump_scalar(scalar, version=LATEST_VER):
     if scalar is None:
         return 'N'
     elif scalar is NA:
-        if version < VER_3_0:
+        if pre_3_0(version):
             raise ValueError('Project Haystack version %s ' \
                              'does not support NA' \
                              % version)
@@ -110,7 +110,7 @@ def dump_scalar(scalar, version=LATEST_VER):
         return 'R'
     elif isinstance(scalar, list):
         # Forbid version 2.0 and earlier.
-        if version < VER_3_0:
+        if pre_3_0(version):
             raise ValueError('Project Haystack version %s ' \
                              'does not support lists' \
                              % version)
@@ -119,7 +119,7 @@ def dump_scalar(scalar, version=LATEST_VER):
             scalar))
     elif isinstance(scalar, dict):
         # Forbid version 2.0 and earlier.
-        if version < VER_3_0:
+        if pre_3_0(version):
             raise ValueError('Project Haystack version %s ' \
                              'does not support dicts' \
                              % version)
